@@ -366,7 +366,8 @@ func linkAttrAlphabet() []string {
 		` href="http://e.x/"`, ` href="//e.x/p"`, ` href="/local"`, ` href="#f"`, ` href="mailto:a@e.x"`, ` href="javascript:x"`, ` href=""`,
 		` href=" http://e.x/"`, // raw value unparseable (leading space), normalised value host-qualified
 		` href="/%2Fe.x/&lt;"`, // raw value a local path, normal form re-escaped
-		` href="https:e.x/p"`,   // no slashes after a special scheme: a browser still finds the host e.x
+		` href="https:e.x/p"`,  // no slashes after a special scheme: a browser still finds the host e.x
+		` href="ftp:e.x/p"`,
 		` rel=""`, ` rel="nofollow"`, ` rel="noreferrer"`, ` rel="noopener"`, ` rel="NOFOLLOW"`, ` rel="nofollowx"`, ` rel="xnofollow"`,
 		` rel="external nofollow"`, ` rel="a&#9;b"`, ` rel="xnoopener noreferrerx"`, ` rel="nofollow&nbsp;noreferrer&nbsp;noopener"`,
 		` target="_blank"`, ` target="_self"`, ` target="x"`, ` title="t"`,
